@@ -297,6 +297,12 @@ def concretize(model, v, max_len=12):
         return list(concretize(model, v.seq))
     if isinstance(v, SSeq):
         n = concretize(model, v.length) if not isinstance(v.length, int) else v.length
+        mg = getattr(v, "model_get", None)
+        if mg is not None:
+            # a sequence whose getter forks over the element's variant (contracts/C12 `fresh_keys`): reading it through
+            # `get` here would record path decisions (and assume the first variant) in the middle of the path that is
+            # being reported; `model_get(model, i)` reads element i off the model without touching the state
+            return tuple(mg(model, i) for i in range(min(n, max_len)))
         if n > max_len:
             return ("<long>", n, tuple(concretize(model, v.get(i)) for i in range(max_len)))
         return tuple(concretize(model, v.get(i)) for i in range(n))
